@@ -15,7 +15,10 @@ Transcription of the anchored C code, one Lean function per C block:
 C widths: `ErgStart`, `IntOffset` are `LongWord` (mod 2^32), `TransLen`, `ChkSum`, `HSeg`, `RecCnt` are `Word` (mod 2^16).
 `Quirks` selects between what the unchanged tree does and the intended behaviour for the three suspected defects; the
 harness determines the flags with a probe on the real binary, so the model follows the code before and after a repair.
-Outside the model: TI-DSK and Mico8 output, `-f` filter, several source files / file offsets `name(ofs)`, `-d`, `-k`, overlap warnings.
+* `p2hexFiles`  – `main` with several source arguments `name(offset)`: `MeasureFile` over every argument with the
+                  offset added, `ProcessFile` per argument (`InpStart += Offset`; `ChkSum` is a local of `ProcessFile`,
+                  the format flags, `MaxMoto`/`MaxIntel`, the MOS line count and the C block number are globals)
+Outside the model: TI-DSK and Mico8 output, `-f` filter, wildcards in source arguments, `-d`, `-k`, overlap warnings.
 Core-only imports.
 -/
 namespace AslModel.P2Hex
@@ -526,6 +529,54 @@ def p2hex (o : Opts) (items : List Item) : Except Err Output := do
     | none => firstEntry items
   let (groups, ov) ← selectGroups o startOf stopOf recs
   let (st, body) ← emitGroups o {} groups
+  let head := if o.destFormat = some .c then cFileHead o else []
+  return ⟨head ++ body ++ terminators o st entry, groups, entry, ov⟩
+
+/-! ### several source arguments, each with an address offset `name(offset)` -/
+
+/-- one source argument of the command line: the code file's items and the value `RemoveOffset` returns for the
+`(offset)` suffix, as the `LongWord` it is stored in (0 without suffix; a negative value is its two's complement) -/
+structure Src where
+  items : List Item
+  offset : Nat := 0
+deriving Repr
+
+/-- `Adr += Offset` (MeasureFile) / `InpStart += Offset` (ProcessFile), both `LongWord` -/
+def shiftRec (off : Nat) (r : Rec) : Rec := { r with start := (r.start + off) % two32 }
+
+/-- the data records of one argument as both passes see them -/
+def srcRecs (s : Src) : List Rec := (AslModel.PFile.dataRecs s.items).map (shiftRec s.offset)
+
+/-- everything `MeasureFile` sees: the arguments in command line order -/
+def allRecs : List Src → List Rec
+  | [] => []
+  | s :: ss => srcRecs s ++ allRecs ss
+
+def allItems : List Src → List Item
+  | [] => []
+  | s :: ss => s.items ++ allItems ss
+
+/-- the `ProcessGroup(…, ProcessFile)` loop of `main`: per argument one `ProcessFile` call whose local `ChkSum` starts at 0 -/
+def processFiles (o : Opts) (startOf stopOf : Nat → Nat) : St → List Src → Except Err (St × List Line × List Group × Nat)
+  | st, [] => .ok (st, [], [], 0)
+  | st, s :: ss => do
+    let (groups, ov) ← selectGroups o startOf stopOf (srcRecs s)
+    let (st1, l1) ← emitGroups o { st with chk := 0 } groups
+    let (st2, l2, g2, ov2) ← processFiles o startOf stopOf st1 ss
+    return (st2, l1 ++ l2, groups ++ g2, ov + ov2)
+
+/-- the whole program for the source arguments `srcs` (command line order) -/
+def p2hexFiles (o : Opts) (srcs : List Src) : Except Err Output := do
+  let recs := allRecs srcs
+  let startOf := segStart o recs
+  let stopOf := segStop o recs
+  let chkSeg := if o.forceSeg ≠ 0 then o.forceSeg else 1
+  if (o.startAuto || o.stopAuto) && decide (startOf chkSeg > stopOf chkSeg) then throw .autoFailed
+  -- `EntryAdrPresent` is global: `-e`, else the first entry record met in any argument; it is not moved by the offset
+  let entry := match o.entry with
+    | some e => some e
+    | none => firstEntry (allItems srcs)
+  let (st, body, groups, ov) ← processFiles o startOf stopOf {} srcs
   let head := if o.destFormat = some .c then cFileHead o else []
   return ⟨head ++ body ++ terminators o st entry, groups, entry, ov⟩
 
